@@ -25,6 +25,10 @@ mod android;
 #[cfg(test)]
 mod test_utils;
 
+// Verification hooks (off by default, see Cargo.toml `verif-hooks`).
+#[cfg(feature = "verif-hooks")]
+pub mod verif_hooks;
+
 // Take all public items from the updater namespace and make them public.
 pub use self::updater::*;
 
